@@ -1,8 +1,45 @@
 (* C20 correspondence: the implementation's verdict (accepted / rejected) per case vs the model. *)
-From Coq Require Import ZArith List Bool.
-Require Import SkV.Lib.Base SkV.Lib.ZRange SkV.C01.Model SkV.C20.Model.
+From Coq Require Import String ZArith List Bool.
+Require Import SkV.Lib.Base SkV.Lib.ZRange SkV.C01.Model SkV.C20.Model SkV.C20.ModelV SkV.C20.Chain.
 Import ListNotations.
 Open Scope Z_scope.
+
+(* a direct call of one validator *)
+Inductive vquery :=
+  | QTimeIndex (i : ixdesc) (allow_empty : bool) (eit : option ixkind)
+  | QSeries (s : series) (univariate allow_empty allow_numpy : bool) (eit : option ixkind)
+  | QY (y : series) (allow_empty allow_constant : bool)
+  | QX (x : series) (allow_empty univariate : bool)
+  | QYX (y : series) (X : option series) (allow_empty : bool)
+  | QEqual (y0 : series) (rest : list series)
+  | QCv (cv : cvdesc) (enforce_sww : bool)
+  | QSp (v : pyval)
+  | QScoring (s : option bool)
+  | QEvalStrategy (s : string) | QReduceStrategy (s : string) | QScitype (s : string)
+  | QAggfunc (s : string)
+  | QForecasters (f : fcs_attr) (params : list Z)
+  | QSteps (steps : list member) (params : list Z)
+  | QNaiveRules (st : strategy_name) (sp wl : pyval) (n : Z).
+
+Definition vquery_ok (q : vquery) : bool :=
+  match q with
+  | QTimeIndex i e eit => time_index_ok e eit i
+  | QSeries s u e np eit => series_ok u e np eit s
+  | QY y e c => y_ok e c None y
+  | QX x e u => X_ok e u None x
+  | QYX y X e => y_X_ok e true None y X
+  | QEqual y0 rest => equal_index_ok y0 rest
+  | QCv cv enf => cv_ok enf cv
+  | QSp v => posint_or_none_ok v
+  | QScoring s => scoring_ok s
+  | QEvalStrategy s => str_mem s eval_strategies
+  | QReduceStrategy s => str_mem s reduce_strategies
+  | QScitype s => str_mem s scitypes
+  | QAggfunc s => str_mem s aggfuncs
+  | QForecasters f ps => forecasters_ok f ps
+  | QSteps st ps => steps_ok st ps
+  | QNaiveRules st sp wl n => naive_rules_ok st sp wl n
+  end.
 
 Inductive case :=
   | TSetting (v : pyval) (none_ok : bool) (accepted : bool)         (* window / step / sp value *)
@@ -13,13 +50,28 @@ Inductive case :=
            (o : option (option (list Z)))                             (* None = rejected *)
   | TMembers (names : list cname) (params : list Z) (allfc : bool) (accepted : bool)
   | TPipeline (names : list cname) (params : list Z) (kinds : list step_kind) (accepted : bool)
-  | TFh (f : fh_input) (o : option (list Z)).
+  | TFh (f : fh_input) (o : option (list Z))
+  | TValidator (q : vquery) (accepted : bool)
+  (* an entry point: one stage per object involved (its chains run in order on its state) *)
+  | TRun (stages : list (list entry * estate)) (i : call_in) (accepted : bool)
+         (fitted : option bool).
 
 Definition olist_eqb (a b : option (list Z)) : bool :=
   match a, b with
   | Some x, Some y => zlist_eqb x y
   | None, None => true
   | _, _ => false
+  end.
+
+Fixpoint run_stages (st : list (list entry * estate)) (i : call_in) : bool :=
+  match st with
+  | [] => true
+  | (es, s) :: t => accepted (run_all (map chain_of es) i s) && run_stages t i
+  end.
+Definition first_fitted (st : list (list entry * estate)) (i : call_in) : bool :=
+  match st with
+  | (es, s) :: _ => e_fitted (fst (run_all (map chain_of es) i s))
+  | [] => false
   end.
 
 Definition check (c : case) : bool :=
@@ -41,6 +93,10 @@ Definition check (c : case) : bool :=
                | Ok a, Some b => zlist_eqb a b
                | _, _ => false
                end
+  | TValidator q acc => Bool.eqb (vquery_ok q) acc
+  | TRun st i acc fit =>
+      Bool.eqb (run_stages st i) acc &&
+      match fit with Some b => Bool.eqb (first_fitted st i) b | None => true end
   end.
 
 Fixpoint mism (cs : list (Z * case)) : list Z :=
